@@ -448,6 +448,24 @@ func (fx *Fx) applyContract(st *State, ct *Contract, fn *ssa.Function, args []Va
 		}
 		fx.bindResults(vars, res, resT, fn, ct)
 	}
+	for _, rd := range ct.Returns {
+		// exact result leaf: substitute the definition for the fresh symbol
+		pe := &Env{fx: fx, st: st, old: old, vars: vars}
+		target := fx.P.elabT(fx, rd[0], pe)
+		def := fx.P.elabT(fx, rd[1], pe)
+		def = coerceTo(def, target.S)
+		found := false
+		for i := range res.L {
+			if res.L[i] == target {
+				res.L[i] = def
+				found = true
+			}
+		}
+		if !found {
+			fx.fail("contract %s: (returns %s ...) does not name a result leaf", name, rd[0])
+		}
+		fx.bindResults(vars, res, resT, fn, ct)
+	}
 	post := &Env{fx: fx, st: st, old: old, vars: vars}
 	for _, ff := range ct.FreshFields {
 		// (fresh-field <pointer> <field>): the field holds a reference to an object allocated by the callee
